@@ -306,22 +306,24 @@ theorem eol_line (s : VS) (r : Int) (body : List Nat) (h0 : 0 ≤ r) (hb : ∀ c
   omega
 
 /-- the bytes of the leading white space of a line are its leading white-space characters -/
-theorem takeWhile_space_enc : ∀ (body : List Nat) (r : Bytes), (∀ c ∈ body, ValidCp c) →
+theorem takeWhile_space_enc : ∀ (body : List Nat) (r : Bytes), (∀ c ∈ body, ValidCp c) → 10 ∉ body →
     (body.takeWhile ucIsSpace).length < body.length →
-    ((encStr body ++ r).takeWhile ucIsSpace).length = (body.takeWhile ucIsSpace).length := by
+    ((encStr body ++ r).takeWhile (fun c => c != 10 && ucIsSpace c)).length = (body.takeWhile ucIsSpace).length := by
   intro body
   induction body with
-  | nil => intro r _ h; simp at h
+  | nil => intro r _ _ h; simp at h
   | cons c t ih =>
-    intro r hv h
+    intro r hv h10 h
     have hc := hv c (by simp)
     rw [encStr_cons, List.append_assoc]
     by_cases hs : ucIsSpace c = true
     · have hlt : c < 128 := by unfold ucIsSpace at hs; simp at hs; omega
       have he : enc c = [c] := by unfold enc; rw [if_pos hlt]
+      have hc10 : (c != 10) = true := by
+        simp only [bne_iff_ne, ne_eq]; intro hc; exact h10 (by simp [hc])
       rw [he, List.takeWhile_cons, if_pos hs] at *
-      simp only [List.singleton_append, List.takeWhile_cons, hs, if_true, List.length_cons] at h ⊢
-      rw [ih r (fun d hd => hv d (by simp [hd])) (by omega)]
+      simp only [List.singleton_append, List.takeWhile_cons, hs, hc10, Bool.and_self, if_true, List.length_cons] at h ⊢
+      rw [ih r (fun d hd => hv d (by simp [hd])) (fun hd => h10 (by simp [hd])) (by omega)]
     · obtain ⟨a, u, he, hch⟩ := enc_chr hc
       have ha : ucIsSpace a = false := by
         unfold enc at he
@@ -335,13 +337,13 @@ theorem takeWhile_space_enc : ∀ (body : List Nat) (r : Bytes), (∀ c ∈ body
       rw [he, List.takeWhile_cons, if_neg hs]
       simp [ha]
 
-theorem indents_line (s : VS) (r : Int) (body : List Nat) (h0 : 0 ≤ r) (hb : ∀ c ∈ body, ValidCp c)
+theorem indents_line (s : VS) (r : Int) (body : List Nat) (h0 : 0 ≤ r) (hb : ∀ c ∈ body, ValidCp c) (h10 : 10 ∉ body)
     (hline : (Vi.lines s)[r.toNat]? = some (encStr (body ++ [10])))
     (hk : (body.takeWhile ucIsSpace).length < body.length) :
     Mot.indents (Vi.lines s) r = ((body.takeWhile ucIsSpace).length : Int) := by
   unfold Mot.indents Mot.lineAt
   rw [if_neg (by omega), hline]
   simp only []
-  rw [encStr_append, takeWhile_space_enc body _ hb hk]
+  rw [encStr_append, takeWhile_space_enc body _ hb h10 hk]
 
 end Neatvi.Lemmas.C08b
